@@ -38,10 +38,25 @@ def is_null(prog, e):
     return v == 0 and True
 
 
+def is_unsigned_type(n):
+    """does the declared / expression type of n resolve to an unsigned integer type"""
+    t = (n.get("type") or {})
+    txt = t.get("desugaredQualType") or t.get("qualType") or ""
+    txt = txt.replace("const ", "").strip()
+    return txt.startswith("unsigned") or txt in ("size_t", "uint8_t", "uint16_t", "uint32_t", "uint64_t", "uintptr_t", "_Bool", "bool")
+
+
 class U:
     """unchecked result"""
+    unsigned = False        # the result is held in a variable of unsigned type: `< 0` / `<= 0` can no longer see -1
+
     def __init__(self, kind, callee, node):
         self.kind, self.callee, self.node = kind, callee, node
+
+    def held_unsigned(self):
+        u = U(self.kind, self.callee, self.node)
+        u.unsigned = True
+        return u
 
     def __eq__(self, o):
         return isinstance(o, U) and o.node is self.node
@@ -188,16 +203,52 @@ class ErrDomain:
         return None
 
     # ---- expressions --------------------------------------------------------------
-    def decl(self, vd, s):
-        init = kids(vd)
+    def _split_conditional(self, e, s):
+        """`c ? a : b` -> [(arm, state in which it is evaluated)] (None when e is not a conditional expression)"""
+        e0 = strip(e, casts=True)
+        if e0 is None or e0.get("kind") != "ConditionalOperator" or self._call_kind(e0):
+            return None
+        c, a, b = kids(e0)
+        s = self.eval(c, s, consumer="cond")
+        if s is None:
+            return []
+        out = []
+        for arm, truth in ((a, True), (b, False)):
+            sa = self.assume(c, truth, self.copy(s))
+            if sa is not None:
+                out.append((arm, sa))
+        return out
+
+    def _const_fact(self, s, lhs_text, rhs):
+        """`p = NULL` / `p = MAP_FAILED`: remember `p == <that>` as a path fact (a later test of p then knows its way)"""
+        if is_null(self.prog, rhs) or is_map_failed(self.prog, rhs):
+            f = "%s == %s" % (lhs_text, expr_str(strip(rhs, casts=True)))
+            s["__facts"] = s.get("__facts", frozenset()) | {f}
+            if s.get("__failed"):
+                s["__ffacts"] = s.get("__ffacts", frozenset()) | {f}
+
+    def decl(self, vd, s, _init=None):
+        init = [_init] if _init is not None else kids(vd)
         if init:
+            arms = self._split_conditional(init[-1], s)
+            if arms is not None:
+                outs = [self.decl(vd, self.copy(sa), _init=arm) for arm, sa in arms]
+                outs = [o for o in outs if o is not None]
+                if not outs:
+                    return None
+                r = outs[0]
+                for o in outs[1:]:
+                    r = self.join(r, o)
+                return r
             s = self.eval(init[-1], s, consumer="init")
             if s is None:
                 return None
+            self._const_fact(s, vd["name"], init[-1])
             ck = self._call_kind(init[-1])
             fl = None if ck else self._flag_of(init[-1], s)
             if ck:
-                s["v:" + vd["id"]] = U(ck[1], ck[0], ck[2])
+                u = U(ck[1], ck[0], ck[2])
+                s["v:" + vd["id"]] = u.held_unsigned() if (ck[1] == "neg" and is_unsigned_type(vd)) else u
             elif fl is not None:
                 for c in walk(strip(init[-1])):
                     if c.get("kind") == "CallExpr" and callee_name(c) in self.kinds:
@@ -236,6 +287,22 @@ class ErrDomain:
         if k in ("BinaryOperator", "CompoundAssignOperator") and e0.get("opcode", "").endswith("=") and \
                 e0.get("opcode") not in ("==", "!=", "<=", ">="):
             lhs, rhs = ks
+            if e0.get("opcode") == "=":
+                arms = self._split_conditional(rhs, s)
+                if arms is not None:
+                    outs = []
+                    for arm, sa in arms:
+                        syn = dict(e0)
+                        syn["inner"] = [lhs, arm]
+                        o = self.eval(syn, sa, consumer=consumer)
+                        if o is not None:
+                            outs.append(o)
+                    if not outs:
+                        return None
+                    r = outs[0]
+                    for o in outs[1:]:
+                        r = self.join(r, o)
+                    return r
             fl = self._flag_of(rhs, s) if e0.get("opcode") in ("=", "|=") else None
             if e0.get("opcode") not in ("=", "|=") and fl is None:
                 # `x += callee()`: the result is consumed by arithmetic, its failure value can no longer be told from a quantity
@@ -272,7 +339,8 @@ class ErrDomain:
             ck = self._call_kind(rhs)
             if lk and e0.get("opcode") == "=":
                 if ck:
-                    s[lk] = U(ck[1], ck[0], ck[2])
+                    u = U(ck[1], ck[0], ck[2])
+                    s[lk] = u.held_unsigned() if (ck[1] == "neg" and is_unsigned_type(strip(lhs))) else u
                 else:
                     rk = self.key_of(rhs)
                     if rk and rk in s and rk != "__written":
@@ -284,6 +352,8 @@ class ErrDomain:
                         s[lk] = FAILED
                     elif lk in s:
                         del s[lk]
+            if e0.get("opcode") == "=":
+                self._const_fact(s, expr_str(strip(lhs, casts=True)), rhs)
             # lhs sub-expressions (indices, bases)
             for c in kids(strip(lhs)):
                 s = self.eval(c, s, consumer="lhs")
@@ -313,6 +383,16 @@ class ErrDomain:
                 if consumer is None:
                     self.report("CHK", e0, "result of %s() is discarded" % ck[0])
             return s
+        if k == "ConditionalOperator" and not self._call_kind(e0):
+            arms = self._split_conditional(e0, s)
+            outs = [self.eval(arm, sa, consumer=consumer) for arm, sa in arms]
+            outs = [o for o in outs if o is not None]
+            if not outs:
+                return None
+            r = outs[0]
+            for o in outs[1:]:
+                r = self.join(r, o)
+            return r
         if k == "DeclRefExpr":
             key = self.key_of(e0)
             v = s.get(key) if key else None
@@ -397,7 +477,19 @@ class ErrDomain:
             if failed:
                 s["__failed"] = (u.callee, loc_str(u.node))
                 s["__ffacts"] = s.get("__facts", frozenset())
+            elif s.get("__failed"):
+                # an earlier failure is pending: can a failed path take this (non-failing) branch at all?
+                txt, tr = self._canon(e, truth)
+                ff = s.get("__ffacts", frozenset())
+                if (tr and "!(" + txt + ")" in ff) or (not tr and txt in ff):
+                    s.pop("__failed", None)
+                    s.pop("__ffacts", None)
             return s
+        txt, truth = self._canon(e, truth)
+        return self._assume_fact(s, e, txt, truth)
+
+    @staticmethod
+    def _canon(e, truth):
         txt = expr_str(e)
         # relational atoms in one canonical orientation: a >= b is !(a < b), a > b is b < a, a <= b is !(b < a), a != b is !(a == b)
         e0 = strip(e)
@@ -416,6 +508,9 @@ class ErrDomain:
                 txt, truth = "%s == %s" % (a, b), not truth
         elif e0.get("kind") == "BinaryOperator" and e0.get("opcode") == "==":
             txt = "%s == %s" % (expr_str(strip(kids(e0)[0], casts=True)), expr_str(strip(kids(e0)[1], casts=True)))
+        return txt, truth
+
+    def _assume_fact(self, s, e, txt, truth):
         fs = s.get("__facts", frozenset())
         neg = "!(" + txt + ")"
         if truth and neg in fs:
@@ -465,6 +560,8 @@ class ErrDomain:
                 return truth
             if op == "!=" and v == -1:
                 return not truth
+            if u.unsigned and op in ("<", ">=", "<=", ">"):
+                return None           # held in an unsigned variable: -1 is a huge positive value there, an ordering test misses it
             if op == "<" and v == 0:
                 return truth
             if op == ">=" and v == 0:
@@ -736,7 +833,12 @@ ErrDomain._failed_when = _failed_when_ext
 
 
 def c10_rules(chk, prog, tab=None):
-    from .core import walk_with_parents
+    prop_rules(chk, prog)
+    regerr_rule(chk, prog)
+
+
+def prop_rules(chk, prog):
+    """PROP: the status of every internal status-returning function is tested, and a path on which a callee failed ends in failure"""
     kinds = internal_status_kinds(prog)
     chk.analysed["status_functions"] = kinds
     chk.floor("internal status-returning functions", len(kinds), 15)
@@ -812,7 +914,6 @@ def c10_rules(chk, prog, tab=None):
                 if fnm == "EXIT_FAILURE":
                     chk.bad("PROP", "PROP/quantity/%s" % fn, loc_str(m), "%s reports failure through its sentinel, never through a positive status its caller would read as a count" % fn,
                             "returns EXIT_FAILURE (%s) where callers expect a count or the sentinel" % v)
-    regerr_rule(chk, prog)
 
 
 def regerr_rule(chk, prog):
